@@ -7,6 +7,8 @@ from typing import Any
 
 import z3
 
+z3.set_param('warning', False)
+
 Ref = z3.DeclareSort('Ref')          # Python objects / RegistrationPtr targets (uninterpreted)
 Str = z3.DeclareSort('Str')          # std::string values used only through ==, !=, empty()
 NULL = z3.Const('NULLREF', Ref)
